@@ -101,10 +101,17 @@ def make_resolver(ctx, unit, ops, skip=(), coroutines=False):
     ev = AbsEval(ops)
 
     def resolve(call, env):
+        veto = getattr(ops, "resolves", None)
+        if veto is not None and not veto(call, env):
+            return None  # the model knows what is being called here (e.g. the user's callable, not the library default)
+        pick = getattr(ops, "callee_unit", None)
+        exact = pick(call, env) if pick is not None else None
         try:
-            fv = ctx.vals.expr(unit, call.func, None)
+            fv = [("libfn", exact.fq)] if exact is not None else ctx.vals.expr(unit, call.func, None)
         except Exception:  # noqa: BLE001
             return None
+        if exact is None and pick is not None and len({f for f in fv if f[0] in ("libfn", "bound", "cls")}) > 1:
+            return None  # several candidates and the model does not say which: leave the call to the model
         for f in fv:
             target, offset = None, 0
             if f[0] == "libfn":
